@@ -39,7 +39,7 @@ var mnValidSettings = []struct {
 	{"epoch", []string{"125000000", "50", "7", "1"}},
 	{"reward_decline_rate", []string{"0.1", "0", "0.5", "1"}},
 	{"num_miner_delegates_rewarded", []string{"10", "1", "2", "0"}},
-	{"num_sharders_rewarded", []string{"1", "2"}}, // "0" passes validation and makes the next payFees divide by zero: see mnCrashers
+	{"num_sharders_rewarded", []string{"1", "2", "3", "5"}}, // "0" passes validation and makes the next payFees divide by zero: see mnCrashers
 	{"num_sharder_delegates_rewarded", []string{"5", "1", "0"}},
 	{"cooldown_period", []string{"100", "0", "5"}},
 	{"health_check_period", []string{"90m", "1h", "10s"}},
